@@ -8,6 +8,9 @@ import Proofs.C13.Dispatch
 import Proofs.C13.TwoLevel
 import Proofs.C13.Entry
 import Proofs.C13.Lengths
+import Proofs.C13.FeistelWrong
+import Proofs.C13.ElectrumOld
+import Proofs.C13.ElectrumVersion
 /-!
 # C13 — mnemonics and seeds: entropy round-trips, checksums bind, thresholds recover (DESIGN.md §3 C13)
 
@@ -135,6 +138,26 @@ theorem feistel_never_errors (F : Nat → Bytes → Bytes) (hF : ∀ i r, (F i r
 
 example : (fun (i : Nat) (r : Bytes) => r.map (· + UInt8.ofNat i)) 3 [1, 2] = [4, 5] := by decide
 
+/-- `_feistel`, either direction, is INJECTIVE on even-length payloads (a bijection of the payloads of each length):
+    two different encrypted secrets never decrypt to the same master secret, whatever the passphrase -/
+theorem feistel_injective (F : Nat → Bytes → Bytes) (hF : ∀ i r, (F i r).length = r.length)
+    (a b : Bytes) (ha : a.length % 2 = 0) (hb : b.length % 2 = 0) (dec : Bool)
+    (h : feistel F a dec = feistel F b dec) : a = b :=
+  Btc.C13.feistel_injective F hF a b ha hb dec h
+
+/-- WRONG passphrase: decrypting under another round function `F'` yields some secret of the same length, and that
+    secret is the right one exactly when `F'` encrypts the right one to the very same ciphertext.  (That PBKDF2 under
+    two different passphrases does not do so is the cryptographic assumption; tested by the oracle `slip39.set`.) -/
+theorem feistel_wrong_passphrase (F F' : Nat → Bytes → Bytes) (hF : ∀ i r, (F i r).length = r.length)
+    (hF' : ∀ i r, (F' i r).length = r.length) (m : Bytes) (hm : m.length % 2 = 0) :
+    ∃ c m', feistel F m false = some c ∧ feistel F' c true = some m' ∧ m'.length = m.length ∧
+      (m' = m ↔ feistel F' m false = some c) :=
+  feistel_wrong_key F F' hF hF' m hm
+
+/-- two round functions that decrypt the same ciphertext to different secrets -/
+example : feistel (fun i r => r.map (· + UInt8.ofNat i + 1)) [1, 2, 3, 4] false = some [2, 22, 2, 23] ∧
+    feistel (fun _ r => r) [2, 22, 2, 23] true ≠ some [1, 2, 3, 4] := by decide
+
 /-! ## T5 — share codec and RS1024 -/
 
 /-- `share_from_mnemonic (mnemonic_from_share s) = s` at word-index level, for every valid share: all field
@@ -236,6 +259,61 @@ theorem electrum_version_rule (digits rest : List Nat) (n : Nat) :
     omega
   · simp [mnemonicType, Gen.Mnemonic.MNEMONIC_VERSIONS, versionLoop, List.isPrefixOf]
 
+/-- Electrum's version-prefix ACCEPTANCE, as an iff, for every digit string and word count: a sentence that is not
+    a pre-2.0 seed carries a version exactly when the hex digits of HMAC-SHA512("Seed version", normalised sentence)
+    start with that version's prefix in the generated `_MNEMONIC_VERSIONS` ("2fa" only at 12 words or at least 20);
+    it has no version ("" → refused by `version_from_mnemonic`) exactly when none of the four applies; nothing else
+    is ever answered. -/
+theorem electrum_accepted_iff_prefix (digits : List Nat) (n : Nat) :
+    (mnemonicType false digits n = "standard" ↔ [0, 1] <+: digits) ∧
+    (mnemonicType false digits n = "segwit" ↔ [1, 0, 0] <+: digits) ∧
+    (mnemonicType false digits n = "2fa" ↔ [1, 0, 1] <+: digits ∧ (n = 12 ∨ 20 ≤ n)) ∧
+    (mnemonicType false digits n = "2fa_segwit" ↔ [1, 0, 2] <+: digits) ∧
+    (mnemonicType false digits n = "" ↔ ¬ [0, 1] <+: digits ∧ ¬ [1, 0, 0] <+: digits ∧
+      ¬ ([1, 0, 1] <+: digits ∧ (n = 12 ∨ 20 ≤ n)) ∧ ¬ [1, 0, 2] <+: digits) ∧
+    mnemonicType false digits n ∈ ["standard", "segwit", "2fa", "2fa_segwit", ""] :=
+  mnemonicType_iff digits n
+
+example : mnemonicType false [1, 0, 1, 7] 13 = "" ∧ mnemonicType false [1, 0, 1, 7] 12 = "2fa" := by decide
+
+/-- Electrum's pre-2.0 codec (`old_mnemonic_from_hex_seed` / `hex_seed_from_old_mnemonic`, three words per 32-bit
+    group over the generated `OLD_BASE` = 1626 words): every hex seed of 32-bit groups decodes back to itself; the
+    sentence has three indexes below `OLD_BASE` per group; and conversely every triple of indexes is the encoding of
+    the group it decodes to, which is below `OLD_BASE`³ (it can exceed 32 bits: then the hex seed has 9 characters for
+    that group, as in Electrum).  `2^32 ≤ OLD_BASE³` is what makes three words enough: a shorter list breaks this. -/
+theorem electrum_old_roundtrip (groups : List Nat) (h : ∀ g ∈ groups, g < 2 ^ 32) :
+    oldSeedGroups Gen.Mnemonic.OLD_BASE (oldMnemonicIndexes Gen.Mnemonic.OLD_BASE groups) = groups ∧
+    (oldMnemonicIndexes Gen.Mnemonic.OLD_BASE groups).length = 3 * groups.length ∧
+    (∀ i ∈ oldMnemonicIndexes Gen.Mnemonic.OLD_BASE groups, i < Gen.Mnemonic.OLD_BASE) ∧
+    (∀ a c d, a < Gen.Mnemonic.OLD_BASE → c < Gen.Mnemonic.OLD_BASE → d < Gen.Mnemonic.OLD_BASE →
+      oldEncodeGroup Gen.Mnemonic.OLD_BASE (oldDecodeGroup Gen.Mnemonic.OLD_BASE a c d) = [a, c, d]) := by
+  have hb : 0 < Gen.Mnemonic.OLD_BASE := by decide
+  have h32 : 2 ^ 32 ≤ Gen.Mnemonic.OLD_BASE * Gen.Mnemonic.OLD_BASE * Gen.Mnemonic.OLD_BASE := by decide
+  exact ⟨oldSeedGroups_oldMnemonicIndexes _ hb groups (fun g hg => Nat.lt_of_lt_of_le (h g hg) h32),
+    oldMnemonicIndexes_length _ groups, oldMnemonicIndexes_lt _ hb groups,
+    fun a c d ha hc hd => (oldEncode_oldDecode _ a c d ha hc hd).2⟩
+
+example : oldHexSeedGroups Gen.Mnemonic.OLD_BASE (oldMnemonicIndexes Gen.Mnemonic.OLD_BASE [0xdeadbeef, 0, 1, 0xffffffff])
+    = some [0xdeadbeef, 0, 1, 0xffffffff] := by decide
+
+/-- word lists: `index (word i) = i` needs only duplicate-freeness — for ANY list without duplicates the lookup of
+    its i-th word is i.  That each of the 26 shipped lists (12 BIP39 + SLIP39's, Electrum's 12, the pre-2.0 list) IS
+    duplicate-free, NFKD-normal and blank-free is CHECKED BY THE TRANSLATOR on every run (it refuses to generate
+    otherwise; `Gen.Mnemonic.WORDLISTS` pins each list's length and SHA-256) and by the oracle `wordlist.bijection`
+    through btclib's own lookup; the lengths are the bases the model computes with. -/
+theorem wordlist_index_of_word (W : List String) (h : W.Nodup) (i : Nat) (hi : i < W.length) :
+    W.idxOf W[i] = i ∧
+    Gen.Mnemonic.WORDLISTS.map (·.1) =
+      ["bip39/cs", "bip39/en", "bip39/es", "bip39/fr", "bip39/it", "bip39/ja", "bip39/ko", "bip39/pt", "bip39/ru",
+       "bip39/tr", "bip39/zh", "bip39/zh_tw", "bip39/slip39",
+       "electrum/cs", "electrum/en", "electrum/es", "electrum/fr", "electrum/it", "electrum/ja", "electrum/ko",
+       "electrum/pt", "electrum/ru", "electrum/tr", "electrum/zh", "electrum/zh_tw", "electrum/old"] ∧
+    Gen.Mnemonic.WORDLISTS.map (·.2.1) =
+      List.replicate 12 Gen.Mnemonic.BIP39_BASE ++ [2 ^ Gen.Slip39.RADIX_BITS] ++
+      List.replicate 7 Gen.Mnemonic.BIP39_BASE ++ [Gen.Mnemonic.OLD_BASE] ++
+      List.replicate 4 Gen.Mnemonic.BIP39_BASE ++ [Gen.Mnemonic.OLD_BASE] :=
+  ⟨List.Nodup.idxOf_getElem h i hi, by decide, by decide⟩
+
 /-- BIP85: the entropy of a derived key is HMAC-SHA512 keyed with the ASCII of "bip-entropy-from-k" -/
 theorem bip85_is_hmac (hm : Bytes → Bytes → Bytes) (key : Bytes) :
     bip85Entropy hm key = hm ("bip-entropy-from-k".toList.map fun c => UInt8.ofNat c.toNat) key := by
@@ -258,6 +336,33 @@ theorem bip85_tables_are_the_bips :
     bip85Bip39Path "zh" 12 7 = some [83696968, 39, 4, 12, 7] ∧
     bip85Bip39Path "zh_tw" 24 0 = some [83696968, 39, 5, 24, 0] := by
   decide
+
+/-- BIP85's sized applications: the bounds in the source are the BIP's (HEX 16..64 bytes, PWD BASE64 20..86, PWD
+    BASE85 10..80 characters); HEX answers exactly inside its bounds, with the leading `n` bytes of the HMAC (so `n`
+    bytes whenever the HMAC has its 64), at the path m/83696968'/128169'/n'/index' -/
+theorem bip85_sized_applications (hm : Bytes → Bytes → Bytes) (key : Bytes) (n index : Nat) :
+    Gen.Mnemonic.BIP85_BOUNDS = [("bytes_entropy_from_root_key", 16, 64), ("base64_password_from_root_key", 20, 86),
+      ("base85_password_from_root_key", 10, 80)] ∧
+    (16 ≤ n ∧ n ≤ 64 → bip85Hex hm key n = some ((bip85Entropy hm key).take n) ∧
+      ((hm (natsToBytes Gen.Mnemonic.BIP85_HMAC_KEY) key).length = 64 → ((bip85Entropy hm key).take n).length = n) ∧
+      bip85SizedPath "bytes_entropy_from_root_key" n index = some [83696968, 128169, n, index]) ∧
+    (¬ (16 ≤ n ∧ n ≤ 64) → bip85Hex hm key n = none ∧ bip85SizedPath "bytes_entropy_from_root_key" n index = none) := by
+  refine ⟨by decide, ?_, ?_⟩
+  · intro h
+    have e : Gen.Mnemonic.BIP85_BOUNDS.lookup "bytes_entropy_from_root_key" = some (16, 64) := by decide
+    have a : Gen.Mnemonic.BIP85_APPLICATIONS.lookup "bytes_entropy_from_root_key" = some 128169 := by decide
+    refine ⟨by simp only [bip85Hex, e, h, and_self, if_true], ?_, by
+      simp only [bip85SizedPath, e, a, h, and_self, if_true, Gen.Mnemonic.BIP85_PURPOSE]⟩
+    intro hl
+    simp only [bip85Entropy, List.length_take, hl]
+    omega
+  · intro h
+    have e : Gen.Mnemonic.BIP85_BOUNDS.lookup "bytes_entropy_from_root_key" = some (16, 64) := by decide
+    have a : Gen.Mnemonic.BIP85_APPLICATIONS.lookup "bytes_entropy_from_root_key" = some 128169 := by decide
+    exact ⟨by simp only [bip85Hex, e, h, if_false], by simp only [bip85SizedPath, e, a, h, if_false]⟩
+
+example : bip85SizedPath "base64_password_from_root_key" 21 0 = some [83696968, 707764, 21, 0] ∧
+    bip85SizedPath "base85_password_from_root_key" 81 0 = none := by decide
 
 /-! ## dispatch — which scheme claims a sentence -/
 
@@ -417,6 +522,40 @@ theorem slip39_sentences_end_to_end
 
 example : validPassphrase [84, 82, 69, 90, 79, 82] = true ∧ validLength (List.replicate 16 (7 : UInt8)).length = true ∧
     groupsAdmissible [(1, 1), (2, 3), (1, 1)] = true := by decide
+
+/-- WRONG passphrase at the entry points, for the executable hashes: the sentences generated under `pw`, recovered
+    under another valid passphrase `pw'`, are NEVER refused; every qualifying selection gives the same secret `ms'` of
+    the same length, and `ms' = ms` exactly when the two passphrases encrypt `ms` to the same ciphertext (Feistel
+    injectivity).  That they do not is PBKDF2-HMAC-SHA256's business: assumed, tested. -/
+theorem slip39_wrong_passphrase_characterised
+    (pw pw' ms : Bytes) (groups : List (Nat × Nat)) (gt e : Nat) (ext : Bool) (idBytes : Bytes)
+    (groupRnd : List (List GF256)) (groupRp : List GF256)
+    (memberRnd : Nat → List (List GF256)) (memberRp : Nat → List GF256)
+    (hpw : validPassphrase pw = true) (hpw' : validPassphrase pw' = true)
+    (hms : validLength ms.length = true) (he : e < 16)
+    (hadm : groupsAdmissible groups = true)
+    (h0 : 0 < gt) (h1 : gt ≤ groups.length) (h2 : groups.length ≤ 16)
+    (hgs : ∀ g ∈ groups, 0 < g.1 ∧ g.1 ≤ g.2 ∧ g.2 ≤ 16)
+    (hgr : 2 ≤ gt → groupRnd.length = gt - 2 ∧ (∀ r ∈ groupRnd, r.length = ms.length) ∧
+      groupRp.length + Gen.Slip39.DIGEST_BYTES = ms.length)
+    (hmr : ∀ g, g < groups.length → 2 ≤ (groups.getD g (0, 0)).1 →
+      (memberRnd g).length = (groups.getD g (0, 0)).1 - 2 ∧ (∀ r ∈ memberRnd g, r.length = ms.length) ∧
+      (memberRp g).length + Gen.Slip39.DIGEST_BYTES = ms.length) :
+    ∃ sentences ms',
+      mnemonicsFromMasterSecret hmacSha256 (roundFunction pw) pw ms groups gt e ext idBytes groupRnd groupRp
+        memberRnd memberRp = .ok sentences ∧ ms'.length = ms.length ∧
+      (ms' = ms ↔
+        feistel (roundFunction pw' e (ofBE idBytes &&& ((1 <<< Gen.Slip39.ID_BITS) - 1)) ext) ms false =
+        feistel (roundFunction pw e (ofBE idBytes &&& ((1 <<< Gen.Slip39.ID_BITS) - 1)) ext) ms false) ∧
+      ∀ sel : List (Nat × Nat), sel ≠ [] → sel.Nodup →
+        (∀ p ∈ sel, p.1 < groups.length ∧ p.2 < (groups.getD p.1 (0, 0)).2) →
+        (sel.map (·.1)).eraseDups.length = gt →
+        (∀ g ∈ sel.map (·.1), (sel.filter (·.1 = g)).length = (groups.getD g (0, 0)).1) →
+        ∃ chosen, sel.mapM (fun p => (sentences.getD p.1 [])[p.2]?) = some chosen ∧
+          masterSecretFromMnemonics hmacSha256 (roundFunction pw') pw' chosen = .ok ms' :=
+  masterSecretFromMnemonics_wrong_passphrase hmacSha256 (roundFunction pw) (roundFunction pw')
+    (roundFunction_length pw) (roundFunction_length pw') digest_bytes_le_hmacSha256 pw pw' ms groups gt e ext idBytes
+    groupRnd groupRp memberRnd memberRp hpw hpw' hms he hadm h0 h1 h2 hgs hgr hmr
 
 /-- refusals, stated about the EXECUTED entry point `masterSecretFromMnemonics` (passphrase check + `masterSecret`;
     what the driver answers `slip39.master` lines with — for any HMAC and round function, so in particular for
